@@ -690,54 +690,92 @@ WRITE_BACK_CALLEES = ("Cell::set", "Cell::replace", "Cell::swap", "RefCell::repl
 
 
 def value_never_leaves(ctx, bodies, is_state):
-    """True iff, in the given bodies, the content of a piece of long-lived state is only ever (re)written, or read to compute
-    the value written back into the same state (counters: `x += 1`, `c.set(c.get() + 1)`, `stats.hits = stats.hits.wrapping_add(n)`).
-    `is_state(expr)` recognises a (reference-stripped) symbolic expression that denotes the state.  Such state cannot
-    influence any result computed by these bodies: it is diagnostic.  Returns (ok, first leak description)."""
-    for b in bodies:
-        if (b.impl_trait or "").startswith(("std::fmt::Debug", "std::fmt::Display", "core::fmt::Debug", "core::fmt::Display")):
-            continue            # formatting for humans: feeds no result
-        sy = ctx.sym(b)
-
-        def mentions(e):
-            return any(isinstance(x, tuple) and x and is_state(S.strip_refs(x)) for x in S.walk(e)) or is_state(S.strip_refs(e))
-        for bi, si, st in b.iter_stmts():
-            if st["k"] != "assign" or b.blocks[bi]["cleanup"]:
-                continue
+    """True iff the content of a piece of long-lived state is only ever (re)written, or read to compute the value written
+    back into the same state (counters: `x += 1`, `c.set(c.get() + 1)`, `stats.hits = stats.hits.wrapping_add(n)`), or
+    handed out by getters whose results in turn are used in no other way.  `is_state(expr)` recognises a (reference-
+    stripped) symbolic expression that denotes the state.  Such state cannot influence any result computed by the library:
+    it is diagnostic.  All functions of the crate are examined (not only the search path: a counter read by `add` to take a
+    decision is state like any other).  Returns (ok, first leak description)."""
+    if bodies is None:
+        bodies = [b for b in ctx.facts.fns()]
+    getters = set()          # ids of bodies that return a value derived from the state
+    for _round in range(4):
+        new_getters = set(getters)
+        leak = None
+        for b in bodies:
+            if (b.impl_trait or "").startswith(("std::fmt::Debug", "std::fmt::Display", "core::fmt::Debug", "core::fmt::Display")):
+                continue            # formatting for humans: feeds no result
+            if (b.impl_trait or "").startswith(("std::cmp::PartialEq", "std::cmp::Eq", "std::clone::Clone", "std::hash::Hash",
+                                                "std::cmp::PartialOrd", "std::cmp::Ord", "std::default::Default")):
+                continue            # structural impls of the state's own type: a *use* of them elsewhere is what counts
+            sy = ctx.sym(b)
             try:
-                e = sy.rvalue(st["rv"])
-            except Exception:
-                continue
-            if not mentions(e):
-                continue
-            pl = st["place"]
-            if not pl["p"]:
-                if pl["l"] == 0:
-                    return False, "%s returns a value derived from it" % b.id
-                continue            # a temporary: its uses are seen through symbolic resolution
-            dest = S.strip_refs(sy.place(pl))
-            if mentions(dest) or is_state(dest):
-                continue            # written back into the same state
-            return False, "%s stores a value derived from it in %s" % (b.id, S.show(dest, b)[:60])
-        for bi, t in b.iter_terms():
-            if t["k"] == "switch":
-                if mentions(sy.operand(t["discr"])):
-                    return False, "%s branches on it" % b.id
-            elif t["k"] == "call":
-                args = [sy.operand(a) for a in t["args"]]
-                hit = [i for i, a in enumerate(args) if mentions(a)]
-                if not hit:
+                is_state.cur = b          # lets a recogniser depend on the body it is asked about
+            except AttributeError:
+                pass
+
+            def mentions(e):
+                for x in S.walk(e):
+                    if isinstance(x, tuple) and x:
+                        if is_state(S.strip_refs(x)):
+                            return True
+                        if x[0] == "call" and getters:
+                            if any(g == x[1] or ctx.facts.bodies[g].cn == x[1] for g in getters if g in ctx.facts.bodies):
+                                return True
+                        if x[0] == "agg" and x[1] == "closure" and x[2] in getters:
+                            return True
+                return is_state(S.strip_refs(e))
+            for bi, si, st in b.iter_stmts():
+                if st["k"] != "assign" or b.blocks[bi]["cleanup"]:
                     continue
-                cn = t.get("cn") or ""
-                if cn.endswith(ARITH_CALLEES):
-                    if t["dest"]["l"] == 0 and not t["dest"]["p"]:
-                        return False, "%s returns a value derived from it" % b.id
+                try:
+                    e = sy.rvalue(st["rv"])
+                except Exception:
                     continue
-                if cn.endswith(WRITE_BACK_CALLEES) and hit and (hit[0] == 0):
-                    continue        # Cell::set(&state, f(state))
-                if cn.endswith(("LocalKey::with", "LocalKey::try_with")):
-                    continue        # the closure body is one of `bodies` (or not on the path)
-                if cn.endswith(("fmt::Arguments::new", "core::fmt::rt::Argument::new_debug", "core::fmt::rt::Argument::new_display")):
+                if not mentions(e):
                     continue
-                return False, "%s passes it to %s" % (b.id, cn.rsplit("::", 2)[-2] + "::" + cn.rsplit("::", 1)[-1] if "::" in cn else cn)
+                pl = st["place"]
+                if not pl["p"]:
+                    if pl["l"] == 0:
+                        new_getters.add(b.id)
+                    continue            # a temporary: its uses are seen through symbolic resolution
+                dest = S.strip_refs(sy.place(pl))
+                if mentions(dest) or is_state(dest):
+                    continue            # written back into the same state
+                leak = leak or "%s stores a value derived from it in %s" % (b.id, S.show(dest, b)[:60])
+            for bi, t in b.iter_terms():
+                if t["k"] == "switch":
+                    if mentions(sy.operand(t["discr"])):
+                        leak = leak or "%s branches on it" % b.id
+                elif t["k"] == "call":
+                    args = [sy.operand(a) for a in t["args"]]
+                    hit = [i_ for i_, a in enumerate(args) if mentions(a)]
+                    if not hit:
+                        continue
+                    cn = t.get("cn") or ""
+                    if cn.endswith(ARITH_CALLEES):
+                        if t["dest"]["l"] == 0 and not t["dest"]["p"]:
+                            new_getters.add(b.id)
+                        continue
+                    if cn.endswith(WRITE_BACK_CALLEES) and hit[0] == 0:
+                        continue        # Cell::set(&state, f(state))
+                    if cn.endswith(("LocalKey::with", "LocalKey::try_with")):
+                        # the closure's result is the call's result
+                        if t["dest"]["l"] == 0 and not t["dest"]["p"]:
+                            new_getters.add(b.id)
+                        continue
+                    if cn.endswith(("fmt::Arguments::new", "Argument::new_debug", "Argument::new_display", "DebugStruct::field",
+                                    "Formatter::debug_struct")):
+                        continue
+                    tgt = t.get("resolved") or t.get("callee")
+                    if tgt in getters or (t["args"] and U.closure_body(ctx, args[0]) is not None and U.closure_body(ctx, args[0]).id in getters):
+                        if t["dest"]["l"] == 0 and not t["dest"]["p"]:
+                            new_getters.add(b.id)
+                        continue
+                    leak = leak or "%s passes it to %s" % (b.id, cn.rsplit("::", 1)[-1])
+        if leak:
+            return False, leak
+        if new_getters == getters:
+            break
+        getters = new_getters
     return True, None
